@@ -871,6 +871,7 @@ func (ex *Exec) execInstr(fr *frame, st *State, in ssa.Instruction) {
 		st.defers = append(st.defers, deferred{&in.Call, args, fnv})
 	case *ssa.Go:
 		ex.assumptions["go statement at "+pos+" not modelled (spawned goroutine ignored)"] = true
+		ex.siteAsserts(fr, st, &in.Call, in, "go", pos)
 	case *ssa.MakeClosure:
 		b := make([]Val, len(in.Bindings))
 		for i, x := range in.Bindings {
